@@ -147,7 +147,18 @@ type sReader struct {
 	position string
 }
 
-func (r *sReader) StartRead(ctx context.Context) { r.started++ }
+// sErrDuringStart: the collection reader of this task reports a read error while its (long,
+// synchronous) start sequence is still running; the server's watcher goroutine handles it
+// before StartRead returns
+var sErrDuringStart string
+
+func (r *sReader) StartRead(ctx context.Context) {
+	r.started++
+	if r.handle == nil && sErrDuringStart != "" && sErrDuringStart == r.taskID {
+		r.errCh <- errors.New("fail to start to replicate a collection")
+		vQuiesce()
+	}
+}
 func (r *sReader) QuitRead(ctx context.Context)  { r.quit++ }
 func (r *sReader) ErrorChan() <-chan error      { return r.errCh }
 func (r *sReader) active() bool                 { return r.started > r.quit }
